@@ -1,8 +1,8 @@
 /* C++ runtime symbols that are external to the IR (DESIGN.md 2.3). Allocation never fails (stated). */
 #include "verif_rt.h"
 void *malloc(size_t); void free(void *);
-int verif_abort_expected = 0;   /* harnesses that expect termination set this */
-int verif_abort_kind = 0;
+uint32_t verif_abort_expected = 0;   /* harnesses that expect termination set this */
+uint32_t verif_abort_kind = 0;
 static void verif_noreturn(int kind) {
   verif_abort_kind = kind;
   VERIF_CHECK(verif_abort_expected, "unexpected terminate/abort/throw reached");
